@@ -17,6 +17,11 @@ TRUSTED = [
     "binary_normalize mode_NE in ProofsFloat.v); the harness's IEEE bit patterns, document visiting order ((mid, rid) descending, ascending"
     " for reverse), Searcher merge order (stable sort by To desc / From asc) and its search for the map-iteration-order witness"
     " (validated as a permutation inside Coq)",
+    "hand-written limits/cache model props/C06/coq/ModelLimits.v (AggLimits: iteratorFromLiteral TID-count check, ConsumeTokenSource counting,"
+    " bin-count check after Aggregate, ValueBySource with its token cache, key discipline as a parameter) and the spec functions frac_fails_spec /"
+    " cons_spec / parse_spec of CaseDefs.v; the add-only export file /repo/frac/processor/export_verif_c06.go (a token index that only knows"
+    " TID -> value, wrappers around NewSourcedNodeIterator / ConsumeTokenSource / ValueBySource / parseNum); strconv.ParseFloat called by the"
+    " harness as the ORACLE for the accepted language and the value of a field token (the repository's parseNum is never asked)",
     "standard-library axioms used by the float theorems C06_float_* only (Coq Reals / Flocq): ClassicalDedekindReals.sig_not_dec,"
     " ClassicalDedekindReals.sig_forall_dec, FunctionalExtensionality.functional_extensionality_dep, Classical_Prop.classic;"
     " the executable models and the case evaluation do not depend on them",
@@ -35,6 +40,11 @@ ASSUME = [
     "extreme-value worlds run without wire/JSON conversion: proto3 drops the sign of a -0.0 Min/Max, encoding/json refuses a"
     " Sum that overflowed to Inf/NaN (findings reported, not counted)",
     "quantiles are dyadic (a/2^b) so that float64(len-1)*q+0.5 is computed without rounding",
+    "limits: the model's failure condition (search_fails) and the direct count over the documents (frac_fails_spec: more distinct group/field"
+    " tokens among the selected documents, more tokens in the fraction, or more touched bins than the limit) are both compared with the real"
+    " verdict on every case but NOT proved equal; one error kind (texts and which check reports first are not observables); limit worlds hold"
+    " parseable field tokens only (a parse error and a limit error in one search are not modelled); in a limits case the field token's id"
+    " stands in the place of its value",
     "more than 8096 samples in one bin: the random reservoir replacement is not modelled; only Min/Max/Sum/Total"
     " stay exact and each reported quantile must be one of the bin's values",
 ]
@@ -46,7 +56,14 @@ RULE = ("random corpora (3..60 documents, optional group/field tokens, decimal/e
         "Searcher. Every sum/min/max/avg/quantile aggregation is additionally emitted as a float case: documents in visiting "
         "order with IEEE bit patterns, recorded merge tree, Min/Max/Sum bits of every bin and bucket values compared bit-exactly; "
         "one world in ten uses extreme values (1e308, 5e-324, -0.0, 1e16/-1e16/1, 2^53+1, hex floats) or tokens parseNum rejects "
-        "(NaN, Inf, 1e999, abc, ...: which fractions and whether the Searcher fail). non-trivial = at least 3 selected documents in at least 2 fractions and a bin with several "
+        "(NaN, Inf, 1e999, abc, ...: which fractions and whether the Searcher fail). EVERY search runs with AggLimits off and (quick tier: both on every search; thorough: alternating, both on the first search of a world) with the production defaults (1000000/2000/100000: countBySource filled, "
+        "ValueBySource through its cache; Searcher result compared with the unlimited model and spec) and - ordinary worlds - with tiny limits (1, 2, n, n-1, n+1 "
+        "around the distinct group tokens / field tokens / bins / tokens per fraction): which fractions and whether the Searcher fail with "
+        "ErrTooManyUniqValues (CLimErr). Token order of the documents is shuffled in every second world (active fractions number TIDs in arrival order). "
+        "Field values include zero-padded integers (010, 0017, 08), +5, .5, 5., 1e2, hex floats, long digit strings; malformed worlds add 0x1F, 0b101, "
+        "0o17, 1_000, space-padded tokens. Unit classes on the real code through the export file: 150 (thorough 2500) SourcedNodeIterator runs with random "
+        "TID lists (a TID equal to another token's source index), LID lists, limits and ValueBySource lookup sequences (CIter); parseNum on ~300 tokens (CParse). "
+        "non-trivial = at least 3 selected documents in at least 2 fractions and a bin with several "
         "documents or several bins; distinct by input")
 
 
